@@ -218,6 +218,18 @@ func uploadBundle(ctx context.Context, bundle *Bundle, bundleEntriesPerFile uint
 		return err
 	}
 
+	// a key listed several times is uploaded once: duplicate entries for one path cannot be downloaded
+	seen := make(map[string]struct{}, len(files))
+	unique := make([]string, 0, len(files))
+	for _, file := range files {
+		if _, duplicate := seen[file]; duplicate {
+			continue
+		}
+		seen[file] = struct{}{}
+		unique = append(unique, file)
+	}
+	files = unique
+
 	if len(files) == 0 {
 		bundle.l.Warn("Uploading bundle with 0 files")
 	}
